@@ -230,6 +230,42 @@ func (e *Engine) havocLoopMemory(f *frame, lc *loopCtx) {
 					continue
 				}
 				callee := cc.StaticCallee()
+				if callee == nil && cc.IsInvoke() {
+					// interface call: every implementation in the repository must be read-only
+					pure := true
+					found := false
+					if iface, ok := cc.Value.Type().Underlying().(*types.Interface); ok {
+						for _, t := range e.concreteTypes() {
+							if !types.Implements(t, iface) {
+								continue
+							}
+							sel := e.Prog.MethodSets.MethodSet(t).Lookup(cc.Method.Pkg(), cc.Method.Name())
+							if sel == nil {
+								continue
+							}
+							fn := e.Prog.MethodValue(sel)
+							if fn == nil {
+								continue
+							}
+							found = true
+							if fc, ok := e.Contracts[fn]; ok {
+								for _, ml := range fc.C.Modifies {
+									if ml.Kind != "nothing" {
+										pure = false
+									}
+								}
+								continue
+							}
+							if e.writesMemory(fn, map[*ssa.Function]bool{}) {
+								pure = false
+							}
+						}
+					}
+					if !found || !pure {
+						wholeHeaps["*"] = true
+					}
+					continue
+				}
 				if callee == nil {
 					wholeHeaps["*"] = true
 					continue
